@@ -112,7 +112,7 @@ func (o Op) coq() string {
 		return fmt.Sprintf("OSaveWeight %s %s %s", coqfmt.ZU(o.ID), coqfmt.Z(o.LW), coqfmt.Z(o.RW))
 	case "loadstores":
 		return "OLoadStores"
-	case "saveregion":
+	case "saveregion", "leadersave":
 		return fmt.Sprintf("OSaveRegion %s (%s)", coqfmt.ZU(o.ID), coqRV(o.V.region(o.ID), o.Sz))
 	case "delregion":
 		return "ODeleteRegion " + coqfmt.ZU(o.ID)
@@ -333,6 +333,13 @@ func (w *world) exec(o *Op) string {
 		if w.bc != nil { // the way the sync client applies a region: cache first, then storage
 			w.bc.CheckAndPutRegion(core.NewRegionInfo(r, nil))
 		}
+		if err := w.st.SaveRegion(r); err != nil {
+			panic(err)
+		}
+	case "leadersave":
+		// another member (the leader) saves into the shared direct backend: this member's cache does not see it
+		r := o.V.region(o.ID)
+		o.Sz = proto.Size(r)
 		if err := w.st.SaveRegion(r); err != nil {
 			panic(err)
 		}
@@ -979,6 +986,48 @@ func genRegions(r *rng.R, k int) Case {
 				c.Ops = append(c.Ops, Op{K: "saveregionf", ID: id, V: v, Ap: r.Pct(30)})
 			}
 		}
+		if r.Pct(60) {
+			// another member led in between and its saves never reached this member's cache: two neighbouring regions
+			// moved their common border (split + merge), the one with the smaller id grew into the range of the other.
+			// Both records are newer than anything cached; the cached version of the larger id is pushed out by the
+			// record of the smaller id before its own record is reached.
+			slot := map[uint64]int{}
+			for j, id := range ids {
+				slot[id] = j
+			}
+			isSaved := map[uint64]bool{}
+			for _, id := range saved {
+				isSaved[id] = true
+			}
+			var pairs [][2]int
+			for j := 0; j+1 < len(ids); j++ {
+				if isSaved[ids[j]] && isSaved[ids[j+1]] {
+					pairs = append(pairs, [2]int{j, j + 1})
+				}
+			}
+			for k := 0; k < 1+r.Intn(3) && len(pairs) > 0; k++ {
+				pi := r.Intn(len(pairs))
+				pr := pairs[pi]
+				// neighbouring pairs share a region: drop them as well
+				var rest [][2]int
+				for _, q := range pairs {
+					if q[1] < pr[0] || q[0] > pr[1] {
+						rest = append(rest, q)
+					}
+				}
+				pairs = rest
+				lo, hi := uint64(pr[0])*10, uint64(pr[1]+1)*10
+				ver := uint64(10 + k)
+				left, right := ids[pr[0]], ids[pr[1]]
+				if left < right { // the left region has the smaller id: it grows to the right
+					c.Ops = append(c.Ops, Op{K: "leadersave", ID: left, V: &RV{Start: lo, End: lo + 15, ConfVer: 100, Version: ver}},
+						Op{K: "leadersave", ID: right, V: &RV{Start: lo + 15, End: hi, ConfVer: 100, Version: ver}})
+				} else {
+					c.Ops = append(c.Ops, Op{K: "leadersave", ID: right, V: &RV{Start: lo + 5, End: hi, ConfVer: 100, Version: ver}},
+						Op{K: "leadersave", ID: left, V: &RV{Start: lo, End: lo + 5, ConfVer: 100, Version: ver}})
+				}
+			}
+		}
 		c.Ops = append(c.Ops, Op{K: "loadwarm"}, Op{K: "loadregions"})
 	}
 	if rsMode {
@@ -1111,13 +1160,17 @@ func fixedCases() []Case {
 	// store weights that float32 cannot hold: more than 7 significant digits, an integer above 2^24
 	precise := Case{Backend: "mem", Ops: []Op{{K: "savestore", ID: 1, P: 1}, {K: "saveweight", ID: 1, LW: 123456789, RW: 16777217000},
 		{K: "savestore", ID: 2, P: 2}, {K: "saveweight", ID: 2, LW: 1099511627775, RW: 1}, {K: "loadstores"}}}
+	// a follower whose cache lags behind the shared store is elected: region 5 had been split into 1 and 5 (the old leader saved
+	// both halves, the change never reached this member); the load over the warm cache must not lose the record of the new 5
+	lagging := Case{Backend: "etcd", Ops: []Op{{K: "saveregion", ID: 5, V: &RV{Start: 10, End: 40, ConfVer: 1, Version: 5}}, {K: "loadoncecache"}, {K: "leadersave", ID: 1, V: &RV{Start: 10, End: 20, ConfVer: 1, Version: 6}},
+		{K: "leadersave", ID: 5, V: &RV{Start: 20, End: 40, ConfVer: 1, Version: 6}}, {K: "loadwarm"}, {K: "loadregions"}}}
 	slowStore := Case{Backend: "mem"}
 	for i := 0; i < 400; i++ {
 		slowStore.Ops = append(slowStore.Ops, Op{K: "saveregion", ID: uint64(i*3 + 1), V: &RV{Start: uint64(i+1) * 10, End: uint64(i+2) * 10, ConfVer: 1, Version: 1}})
 	}
 	slowStore.Ops = append(slowStore.Ops, Op{K: "budget", P: int64(200 * proto.Size(slowStore.Ops[0].V.region(1))), Tmo: true}, Op{K: "loadregions"}, Op{K: "loadcache"})
 	return []Case{
-		slowStore, wrap, delBoth, pruneBoth, onceRetry, oncePair, cancelClose, handOver, reelected, flushFault, precise, tick, cif(true), cif(false), faults, raceCase(true), raceCase(false), raceCase(true), raceCase(false),
+		slowStore, lagging, wrap, delBoth, pruneBoth, onceRetry, oncePair, cancelClose, handOver, reelected, flushFault, precise, tick, cif(true), cif(false), faults, raceCase(true), raceCase(false), raceCase(true), raceCase(false),
 		// S9 on the stores namespace and on the regions namespace
 		{Backend: "mem", Ops: []Op{{K: "savestore", ID: 1, P: 1}, {K: "savestore", ID: top, P: 2}, {K: "loadstores"}}},
 		{Backend: "mem", Ops: []Op{{K: "saveregion", ID: 1, V: one}, {K: "saveregion", ID: top, V: two}, {K: "loadregions"}}},
@@ -1472,7 +1525,7 @@ func checkGo(R *res.Result, c Case) {
 			wantStores[o.ID] = true
 		case "delstore":
 			delete(wantStores, o.ID)
-		case "saveregion":
+		case "saveregion", "leadersave":
 			wantRegions[o.ID] = true
 			delete(deleted, o.ID)
 			delete(isDeleted, o.ID)
